@@ -89,7 +89,15 @@ func (b *stateBackend) Store(
 			return err
 		}
 
-		st, err := state.New(stateUpdate.OldRoot, b.stateDB, batch)
+		// Open the state the chain is actually at, not the one the block claims to
+		// extend: Update compares its commitment with stateUpdate.OldRoot. Opened at the
+		// claimed root, a block claiming the empty root would be checked against the
+		// empty state and accepted on top of a non-empty one.
+		headRoot, err := headStateRoot(b.database)
+		if err != nil {
+			return err
+		}
+		st, err := state.New(headRoot, b.stateDB, batch)
 		if err != nil {
 			return err
 		}
